@@ -16,10 +16,12 @@ import (
 //	w  a source write
 //	a  the answer to the oldest unanswered request at a sink
 //	r  the action held in a gated node returns
+//	U  Agent.Unload(symbol <node>)     L  Agent.Load(symbol <node>)   (the agent attached to the workflow)
+//	X  the session's process exits (only when nothing of it is in flight) and a fresh process takes its place
 //	d  a sink calls Receive once more although nothing is pending (a repeated answer): it must be
 //	   refused, reach no writer and be no answer to anything
 type op struct {
-	kind byte // 'w' | 'a' | 'r' | 'd'
+	kind byte // 'w' | 'a' | 'r' | 'd' | 'U' | 'L' | 'X'
 	sess int
 	node int // source, sink or gated node index
 	v    int
@@ -31,6 +33,12 @@ func (o op) String() string {
 		return fmt.Sprintf("w%d.%d=%d", o.sess, o.node, o.v)
 	case 'd':
 		return fmt.Sprintf("d%d.%d", o.sess, o.node)
+	case 'U':
+		return fmt.Sprintf("U%d", o.node)
+	case 'L':
+		return fmt.Sprintf("L%d", o.node)
+	case 'X':
+		return fmt.Sprintf("X%d", o.sess)
 	case 'r':
 		return fmt.Sprintf("r%d.%d", o.sess, o.node)
 	}
@@ -63,6 +71,8 @@ type runner struct {
 	// beforeWrite, when set, runs just before every source write (directed scenarios arm their hooks here)
 	beforeWrite func(sess int)
 	dups        int // refused repeated answers issued
+	// onRestart is told when op X replaced a session's process
+	onRestart func(sess int, old, fresh *session)
 }
 
 func newRunner(f *flow, nsess int) *runner {
@@ -212,6 +222,42 @@ func (r *runner) exec(o op) {
 		ok := sr.s.readers[o.node].Receive(back)
 		obs = append(obs, fmt.Sprintf("recv=%v", ok))
 		sr.ip.writes[req.write].outstanding--
+	case 'U', 'L':
+		if r.f.agent == nil {
+			return
+		}
+		var err error
+		if o.kind == 'U' {
+			err = r.f.agent.Unload(r.f.syms[o.node])
+		} else {
+			err = r.f.agent.Load(r.f.syms[o.node])
+		}
+		r.log = append(r.log, fmt.Sprintf("%v err=%v", o, err))
+		return
+	case 'X':
+		idle := len(sr.ip.blocked()) == 0
+		for _, q := range sr.pending {
+			idle = idle && len(q) == 0
+		}
+		for _, w := range sr.ip.writes {
+			idle = idle && w.done()
+		}
+		for _, q := range sr.queue {
+			idle = idle && len(q) == 0
+		}
+		if !idle {
+			return
+		}
+		old := sr.s
+		old.exit()
+		fresh := &sessRun{s: openSession(r.f), ip: newInterp(r.f.spec), pending: map[int][]pendingReq{}, queue: map[int][]int{},
+			resp: map[int][]*packet.Packet{}, arrived: map[int][]*packet.Packet{}, sent: map[int][]*packet.Packet{}}
+		r.ss[o.sess] = fresh
+		if r.onRestart != nil {
+			r.onRestart(o.sess, old, fresh.s)
+		}
+		r.log = append(r.log, o.String()+" process exited, a fresh one took its place")
+		return
 	case 'd':
 		if len(sr.pending[o.node]) != 0 {
 			return // something is pending: a further Receive would be its answer
